@@ -42,6 +42,7 @@ type GenCfg struct {
 	Visited                                                                                    bool   // visited()/visited_count() in expressions
 	MoreBuiltins                                                                               int    // added to the percentages with which built-ins (and round_places among them) are drawn
 	ArgExprPct                                                                                 int    // chance that a command argument is an {expression} (default 35)
+	HostPanics                                                                                 bool   // model-free C12 worlds: <<call pboom(k)>> - a host function that panics with a value of its own
 	StopArgs                                                                                   bool   // model-free C12 worlds: <<stop now>>, <<stop {1 + 1}>>
 	ExprOnlyLines                                                                              bool   // model-free worlds: some lines are nothing but {an expression}
 	NoStringSelfGrowth                                                                         bool   // model-free worlds: no string variable on the right of a string assignment
@@ -303,10 +304,24 @@ func (g *gen) stmt(depth int) *Stmt {
 	return g.line()
 }
 
+// unknownFn: the name of a function nobody registered - mostly a far-off one, sometimes one that is one or two
+// edits away from registered names, from several of them at the same distance (rand: random/round; dnc: inc/dec;
+// px: the host's pn/pb/ps/pv): whatever an error message makes of the neighbourhood must not depend on chance.
+func (g *gen) unknownFn() string {
+	if g.tp.Chance(35, "nearfn") {
+		pool := []string{"rand", "dnc", "px", "roun", "strin", "nmber", "flor", "cel", "dic", "ec", "randm", "visitd", "decimel", "boo", "integr", "pnm"}
+		return pool[g.tp.Int(0, len(pool)-1, "nearfnname")]
+	}
+	return "nofunc"
+}
+
 // faultStmt is a statement-level fault site (C06): valid syntax, must fail at run time.
 func (g *gen) faultStmt() *Stmt {
 	switch g.tp.Int(0, 9, "faultstmt") {
 	case 0:
+		if g.tp.Chance(25, "nearcmd") {
+			return &Stmt{K: sCommand, Cmd: []string{"c1", "shak", "iffi", "settl", "wai", "stp"}[g.tp.Int(0, 5, "nearcmdname")], Args: []CmdArg{{Word: "1"}}}
+		}
 		return &Stmt{K: sCommand, Cmd: longNames("nocmd")[g.tp.Pick([]int{5, 1, 1, 1}, "nocmdname")], Args: []CmdArg{{Word: "1"}}}
 	case 1:
 		return &Stmt{K: sJump, Target: "Nowhere"}
@@ -315,7 +330,7 @@ func (g *gen) faultStmt() *Stmt {
 	case 3:
 		return &Stmt{K: sJumpE, E: &Expr{K: eStr, S: longNames("no such node")[g.tp.Pick([]int{5, 1, 1, 1}, "nonodename")]}}
 	case 4:
-		return &Stmt{K: sCall, E: &Expr{K: eCall, S: "nofunc"}}
+		return &Stmt{K: sCall, E: &Expr{K: eCall, S: g.unknownFn()}}
 	case 5:
 		if len(g.vars[0]) > 0 {
 			return &Stmt{K: sSet, Var: g.vars[0][0], Op: "=", E: &Expr{K: eStr, S: "now a string"}}
@@ -653,6 +668,10 @@ func (g *gen) varsOf(ty byte) []string {
 }
 
 func (g *gen) callStmt() *Stmt {
+	if g.cfg.HostPanics && g.tp.Chance(12, "callpanics") {
+		// a host function that panics with a value of its own (neither an error nor a string) and a host that survives it
+		return &Stmt{K: sCall, E: &Expr{K: eCall, S: "pboom", A: []*Expr{numLit(float64(g.tp.Int(0, 2, "boomkind")))}}}
+	}
 	if g.cfg.HostFnWrites && len(g.vars[0]) > 0 && g.tp.Chance(40, "callwrites") {
 		// a host function that writes a variable through the storer in the middle of a run of statements
 		return &Stmt{K: sCall, E: &Expr{K: eCall, S: "pw", A: []*Expr{{K: eStr, S: g.vars[0][g.tp.Int(0, len(g.vars[0])-1, "pwvar")]}, g.expr('n', 1)}}}
@@ -923,9 +942,14 @@ func (g *gen) faultExpr(ty byte) *Expr {
 		}
 		return &Expr{K: eNeg, A: []*Expr{{K: eStr, S: "s"}}}
 	case 2:
+		if len(g.vars[0]) > 0 && len(g.vars[0][0]) >= 2 && g.tp.Chance(25, "nearvar") {
+			// a name one edit away from the world's variables (from several of them when they differ in that place only)
+			v := g.vars[0][0]
+			return &Expr{K: eVar, S: v[:1] + "z" + v[2:]}
+		}
 		return &Expr{K: eVar, S: "undefined" + fmt.Sprint(g.tp.Int(0, 2, "undef"))}
 	case 3:
-		return &Expr{K: eCall, S: "nofunc", A: []*Expr{g.atom('n')}}
+		return &Expr{K: eCall, S: g.unknownFn(), A: []*Expr{g.atom('n')}}
 	case 4: // wrong arity
 		if g.tp.Bool("arity") {
 			return &Expr{K: eCall, S: "pn"}
@@ -1167,4 +1191,52 @@ func (g *gen) addDeepChain(p *Program, tailKinds []string) int {
 	body = append(body, n.Body[at:]...)
 	n.Body = body
 	return depth
+}
+
+// renameNode gives a node another title and rewrites every mention of the old one: plain jumps become jumps by a
+// string literal (a title with blanks in it cannot be written as a bare word), string literals anywhere else
+// (entry probes, visit counters, computed jumps, variables that hold titles) are replaced.
+func renameNode(p *Program, old, neu string) {
+	var ex func(e *Expr)
+	ex = func(e *Expr) {
+		if e == nil {
+			return
+		}
+		if e.K == eStr && e.S == old {
+			e.S = neu
+		}
+		for _, a := range e.A {
+			ex(a)
+		}
+	}
+	line := func(l *LineS) {
+		if l == nil {
+			return
+		}
+		ex(l.Cond)
+		for i := range l.Parts {
+			ex(l.Parts[i].E)
+		}
+	}
+	for _, n := range p.Nodes {
+		if n.Title == old {
+			n.Title = neu
+		}
+		walkStmts(n.Body, func(s *Stmt) {
+			if s.K == sJump && s.Target == old {
+				s.K, s.Target, s.E = sJumpE, "", &Expr{K: eStr, S: neu}
+			}
+			ex(s.E)
+			line(s.Line)
+			for _, o := range s.Options {
+				line(o.Line)
+			}
+			for _, c := range s.Clauses {
+				ex(c.Cond)
+			}
+			for i := range s.Args {
+				ex(s.Args[i].E)
+			}
+		})
+	}
 }
